@@ -24,6 +24,8 @@ package xmlenc
 //@ ensures[C10,C11] length: err == nil ==> len(result) == len(buf) - int(buf[len(buf)-1])
 //@ ensures[C10,C11] prefix: err == nil ==> forall(0, len(result), func(k int) bool { return result[k] == buf[k] })
 //@ ensures[C11] nilonerr: err != nil ==> result == nil
+//@ assert@return[C10,C11] #last (out []byte, e2 error) uses aesgcm cipher.AEAD, nonce []byte, text []byte returns_what_open_authenticated:
+//@    e2 == nil && AEADOpened(aesgcm, nonce, text, out)
 
 //@ contract appendPadding
 //@ requires[cfg] bs: blockSize > 0 && blockSize <= 255
